@@ -4,6 +4,19 @@ use std::net::{TcpListener, TcpStream, UdpSocket};
 use std::process::{Child, Command, Stdio};
 use std::time::{Duration, Instant};
 
+static TIMEOUTS: std::sync::atomic::AtomicUsize = std::sync::atomic::AtomicUsize::new(0);
+
+/// How long to wait for an answer that should come: long (a loaded machine may take seconds to schedule the
+/// tracker's threads; an answer that arrives ends the wait at once), but after a few answers that never
+/// came only a few seconds, so that a tracker that has stopped answering does not stall the run.
+pub fn patience() -> Duration {
+    if TIMEOUTS.load(std::sync::atomic::Ordering::Relaxed) < 4 { Duration::from_secs(30) } else { Duration::from_secs(4) }
+}
+
+pub fn note_timeout() {
+    TIMEOUTS.fetch_add(1, std::sync::atomic::Ordering::Relaxed);
+}
+
 pub fn free_port() -> u16 {
     // a port that is free for both TCP and UDP on the loopback interface
     for _ in 0..50 {
@@ -20,6 +33,8 @@ pub struct Server {
     pub child: Child,
     pub port: u16,
     pub started: Instant,
+    /// the child's TIMING line, once it has exited
+    pub timing: Option<String>,
 }
 
 impl Server {
@@ -31,14 +46,14 @@ impl Server {
         cmd.arg("serve").arg(kind).arg(format!("port={}", port));
         for a in args { cmd.arg(a); }
         let child = cmd.stdin(Stdio::null()).stdout(Stdio::piped()).stderr(Stdio::null()).spawn().ok()?;
-        let s = Server { child, port, started: Instant::now() };
+        let s = Server { child, port, started: Instant::now(), timing: None };
         let t0 = Instant::now();
         if kind == "udp" {
             // no way to probe a UDP socket without the protocol; the families send a connect and retry
             std::thread::sleep(Duration::from_millis(300));
             return Some(s);
         }
-        while t0.elapsed() < Duration::from_secs(10) {
+        while t0.elapsed() < Duration::from_secs(45) {
             if TcpStream::connect_timeout(&format!("127.0.0.1:{}", port).parse().unwrap(), Duration::from_millis(200)).is_ok() {
                 // glommio listeners of all socket workers come up together; give them a moment
                 std::thread::sleep(Duration::from_millis(150));
@@ -60,6 +75,7 @@ impl Server {
                     let out = self.child.stdout.take()?;
                     let mut last = None;
                     for l in BufReader::new(out).lines().map_while(Result::ok) {
+                        if l.starts_with("TIMING") { self.timing = Some(l); continue; }
                         if l.starts_with("EXIT") { last = Some(l); }
                     }
                     return last.or(Some("EXIT process-died".into()));
